@@ -6,8 +6,10 @@ cd /repo || exit 2
 git diff --quiet || { echo "/repo has uncommitted changes"; exit 2; }
 git apply "$patch" || { echo "patch does not apply"; exit 2; }
 cd /verif
+rm -rf /tmp/ev_keep_$$; cp -r evidence /tmp/ev_keep_$$     # evidence of a run against a seeded change is never kept
 for p in "$@"; do
   ./check "$p" --tier quick 2>/dev/null | grep -E "^VIOLATION|^KNOWN|^C[0-9]+ (ok|FAIL)" | cut -c1-260
 done
 git -C /repo checkout -- .
+rm -rf evidence; mv /tmp/ev_keep_$$ evidence
 rm -f /verif/replays/*.json
